@@ -236,6 +236,20 @@ pub fn replay_doc(rc: &RunCtx, kind: &str, doc: &Value) -> Result<(), String> {
             }
             Ok(())
         }
+        "profile-consistency" => {
+            let source = doc["source"].as_str().unwrap_or_else(|| inconclusive("replay without source"));
+            let dev = check_isolated(rc, source, None, "dev");
+            let rel = check_isolated(rc, source, None, "release");
+            if dev.is_empty() != rel.is_empty() {
+                return Err(format!(
+                    "macro built in dev: {}; macro built in release: {}: {:?}",
+                    if dev.is_empty() { "compiles" } else { "compile error" },
+                    if rel.is_empty() { "compiles" } else { "compile error" },
+                    dev.first().or(rel.first())
+                ));
+            }
+            Ok(())
+        }
         "regime" | "expansion" => crate::c18::replay_doc(rc, doc),
         other => inconclusive(&format!("unknown replay kind {}", other)),
     }
